@@ -535,8 +535,11 @@ def a17_case(col, rng, cidx, jobref):
     for f in sp3["fns"].values():
         f = f  # noqa: PLW0127
     d3, _e, _p = S.build_tawazi(sp3, plain=plain)
-    if setup:
+    presetup = bool(setup) and rng.random() < 0.5
+    if presetup:
         asyncio.run(d3.setup())
+    elif setup:
+        col.counters["c17_gathers_with_unset_setup_nodes"] += 1
     K = rng.choice([2, 5, 10, 30, 100]) if jobref.get("big") else rng.choice([2, 5, 10, 30])
     argl = [[Sym("arg", cidx, "k", k)] for k in range(K)]
     env_values = {i: d3.results[ids[i]] for i in setup if ids[i] in d3.results}
